@@ -2,9 +2,28 @@
 import props
 from props import prop, tier_n, family_random, family_enumerated, FAMILY_MODULE, CANARY
 
+import json as _json0
+import os as _os0
+
 FAMILY_MODULE.update({
     "relate": "Trace_Relate",
 })
+
+
+def pairs_stage(run, family, module, cfg, conv, label):
+    """(G) small-scope universe: every unordered pair of the shapes Gen_Pairs.tla enumerates on a tiny lattice is
+    turned into one or more cases of a binary family by conv(case, index), executed and judged."""
+    src, n = run.tlc_cases("Gen_Pairs", cfg=cfg, out_path=_os0.path.join(run.dir, "cases-pairs-%s-%s.ndjson" % (family, label)))
+    if n == 0:
+        raise props.MachineryError("no pairs enumerated")
+    out = _os0.path.join(run.dir, "cases-%s-%s.ndjson" % (family, label))
+    with open(src) as f, open(out, "w") as g:
+        for i, line in enumerate(f):
+            for c in conv(_json0.loads(line), i):
+                g.write(_json0.dumps(c, separators=(",", ":")) + "\n")
+    ev = _os0.path.join(run.dir, "events-%s-%s.ndjson" % (family, label))
+    run.drive(["one", family], out_path=ev, stdin_path=out)
+    props.judge_events(run, family, module, ev, label)
 
 
 @prop("C02")
@@ -18,6 +37,9 @@ def c02(run):
                              "disjoint; distinct by hash of the case"}
     run.model_check("MC_DE9IM", timeout=900)
     family_enumerated(run, "relate", "Gen_Matches", "Trace_Relate", gen_cfg=tier_n(run, "Gen_Matches.cfg", "Gen_Matches_full.cfg"))
+    pairs_stage(run, "relate", "Trace_Relate", tier_n(run, "Gen_Pairs.cfg", "Gen_Pairs_full.cfg"), lambda c, i: [c], "pairs")
+    if run.tier == "thorough":
+        pairs_stage(run, "relate", "Trace_Relate", "Gen_Pairs_holes.cfg", lambda c, i: [c], "pairs-holes")
     family_random(run, "relate", "Trace_Relate", tier_n(run, 6000, 400000))
 
 FAMILY_MODULE["valid"] = "Trace_Valid"
@@ -47,6 +69,15 @@ def c01(run):
     run.extra_cov = {"rule": "random valid lattice geometries of all 7 types incl. nested collections with overlapping and empty "
                              "members (N in 3..6), every ordered type pair, 4 binary ops + UnaryUnion + UnionMany, similarity and "
                              "general-position images; non-trivial = both operands and the result non-empty; distinct by case hash"}
+    ops = ["union", "inter", "diff", "symdiff"]
+    one_op = lambda c, i: [dict(c, op=ops[i % 4])] + ([dict(c, op="dcel")] if i % 5 == 0 else [])
+    all_ops = lambda c, i: [dict(c, op=o) for o in ops] + [dict(c, op="dcel")]
+    if run.tier == "quick":
+        pairs_stage(run, "overlay", "Trace_Overlay", "Gen_Pairs.cfg", one_op, "pairs")
+    else:
+        pairs_stage(run, "overlay", "Trace_Overlay", "Gen_Pairs.cfg", all_ops, "pairs")
+        pairs_stage(run, "overlay", "Trace_Overlay", "Gen_Pairs_holes.cfg", all_ops, "pairs-holes")
+        pairs_stage(run, "overlay", "Trace_Overlay", "Gen_Pairs_full.cfg", one_op, "pairs-full")
     family_random(run, "overlay", "Trace_Overlay", tier_n(run, 6000, 300000))
 
 FAMILY_MODULE["dist"] = "Trace_Dist"
@@ -61,6 +92,9 @@ def c09(run):
     run.extra_cov = {"rule": "random valid lattice geometry pairs of all 7 types (N in 3..8) incl. collections, empty members, "
                              "30-60 segment lines (deep R-tree), similarity and general-position images; triples for the triangle "
                              "law; non-trivial = both operands non-empty; distinct by case hash"}
+    pairs_stage(run, "dist", "Trace_Dist", tier_n(run, "Gen_Pairs.cfg", "Gen_Pairs_full.cfg"), lambda c, i: [dict(c, kind="pair")], "pairs")
+    if run.tier == "thorough":
+        pairs_stage(run, "dist", "Trace_Dist", "Gen_Pairs_holes.cfg", lambda c, i: [dict(c, kind="pair")], "pairs-holes")
     family_random(run, "dist", "Trace_Dist", tier_n(run, 6000, 300000))
 
 
